@@ -147,8 +147,12 @@ GetL(s, i, mode, id) ==
     [] k = "ec"     -> LET r == GetL(s, i + 1, mode, id) IN
                        \* openPartReaders treats "no shard has the part" as "all shards need healing":
                        \* the read delivers zero bytes and re-creates header-only shards
+                       \* (healing calls PutPart with the reader's tx: with a nil tx and an outbox shard store
+                       \*  below, that PutPart dereferences the nil tx and the process dies - "CRASH")
                        IF r.v = None /\ EcDev
-                       THEN [v |-> Empty, s |-> [r.s EXCEPT !.zombie = @ \cup {id}], t |-> r.t \cup {EcTag}]
+                       THEN [v |-> Empty, s |-> [r.s EXCEPT !.zombie = @ \cup {id}],
+                             t |-> r.t \cup {EcTag} \cup (IF mode = "nil" /\ \E k2 \in (i + 1)..Len(s.sem) : s.sem[k2] = "outbox"
+                                                         THEN {"CRASH"} ELSE {})]
                        ELSE r
     [] k = "cache"  -> IF s.cache[id] # None
                        THEN [v |-> s.cache[id], s |-> s,
